@@ -140,7 +140,9 @@ def run(ctx):
     from .. import core
     real = core.REAL_STDOUT
     core.REAL_STDOUT = io.StringIO()
+    ctx.mute = True
     nb = replay_behaviours(ctx, [bad], 'canary')
+    ctx.mute = False
     core.REAL_STDOUT = real
     ctx.violations = saved
     ctx.behaviours -= 1
